@@ -1509,6 +1509,10 @@ def state_closure(cx: Cx, ob: Ob) -> None:
                 )
             continue
         ob.site(f"{where(m, ev.line)} {m.qualname}", f"writes self.{attr}")
+        if attr.startswith("_") and attr not in TABLES and attr not in BASE and how in ("call .clear()", "call .popitem()") and m.name not in ("__setstate__",):
+            # emptying (or shrinking) a private memo forgets answers, it cannot make one wrong
+            ob.site(f"{where(m, ev.line)} {m.qualname}", f"self.{attr}{how[5:]}: a memo that forgets is still right")
+            continue
         if m.name == "__setstate__":
             # a second initialiser (pickle / copy call it on a blank object): restoring __dict__ wholesale is what
             # it is for; a derived value it REBUILDS must be rebuilt the way __init__ builds it
